@@ -178,6 +178,11 @@ func runPipeline(p params, withForge bool) observation {
 	s.Seed(xr)
 	cm := xrh.Claim("ns", "cm")
 	cm.SetResourceReference(&reference.Composite{APIVersion: xrh.XRGVK.GroupVersion().String(), Kind: xrh.XRGVK.Kind, Name: "xr1"})
+	if p.initial == 2 {
+		// The claim mirrors the custom condition the XR lists for it, as an
+		// earlier claim reconcile left it.
+		cm.SetConditions(xpv1.Condition{Type: "Custom2", Status: corev1.ConditionTrue, Reason: "Earlier", LastTransitionTime: metav1.Now()})
+	}
 	s.Seed(cm)
 	c := s.Client("xr")
 	rec := xrh.NewXRReconciler(xrd, xrh.XROptions{Cached: c, Runner: pipelineFn(p, withForge)})
@@ -261,6 +266,11 @@ func pipelineBody(r *explore.Run, rep *report.R, sc string, maxRes int) {
 	if fatal && p.initial == 2 {
 		if c := o.xr["Custom2"]; c.Status != corev1.ConditionUnknown {
 			r.Failf("xr/custom-not-unknown-after-fatal", "custom condition Custom2 was not re-asserted because of a fatal error but is %q, want Unknown (%s)", c.Status, p)
+		}
+		// ... and so does its copy on the claim (Custom2 is listed in the
+		// XR's claimConditionTypes and was True on the claim before).
+		if c := o.claim["Custom2"]; c.Status != corev1.ConditionUnknown {
+			r.Failf("claim/custom-not-unknown-after-fatal", "custom condition Custom2, mirrored on the claim, was not re-asserted because of a fatal error; the XR says Unknown but the claim still says %q (%s)", c.Status, p)
 		}
 		asserted := p.forge.ctype == "Custom"
 		if c := o.xr["Custom"]; !asserted && c.Status != corev1.ConditionUnknown {
